@@ -512,6 +512,10 @@ func (c16) Exec(c *core.Case) (out *core.Outcome) {
 				o.Evals++
 				if res.Resp.OK() {
 					current[st.Setting], has[st.Setting] = want, true
+				} else if res.Resp.Status >= 400 && res.Resp.Status < 500 && res.Resp.ErrCode() != "NotImplemented" {
+					// every document of this program is a valid one for this bucket: "read back exactly as last
+					// written" presupposes that it can be written
+					o.Violate("settings", "C16/settings/"+st.Setting+"/valid-document-refused", "step %d: PUT ?%s of a valid document (%s) -> %d %s", i, st.Setting, abbreviate(string(body), 160), res.Resp.Status, res.Resp.ErrCode())
 				}
 				o.AddClass("settings|put|%s|%s", st.Setting, statusClass(res.Resp.Status))
 			case "delete":
